@@ -31,6 +31,7 @@ pub fn spec() -> Spec {
 }
 
 fn decode(s: &str) -> Result<Option<Bytes>, String> {
+    crate::crashlabel::set(&format!("payload-decoder on {} base64 characters starting {}", s.len(), &s[..s.len().min(24)]));
     let s2 = s.to_string();
     catch_unwind(AssertUnwindSafe(|| brc20_prog::verif::decode_bytes_from_inscription_data(&s2))).map_err(|_| {
         crate::rpc::panics_since(0).last().map(|p| format!("{} @ {}", p.message, p.location)).unwrap_or_else(|| "panic".into())
@@ -236,6 +237,18 @@ fn direct(ctx: &WorkerCtx, rep: &mut WorkerReport) {
             raw.extend_from_slice(&b);
             handpacked(rep, ctx.seed, "raw-limit", &raw, Some(&b));
         }
+    }
+    // large incompressible payloads: the encoder picks the raw form, the base64 text is longer than
+    // the limit although the payload is not
+    let large = [786_431usize, 786_432, 786_433, 800_000, 900_000, 1_000_000, LIMIT - 60, 524_288];
+    let n_large = if ctx.thorough() { large.len() } else { 2 };
+    for j in 0..n_large {
+        let len = large[(ctx.shard as usize + j * 3 + ctx.seed as usize) % large.len()];
+        let b = payload(&mut rng, 0, len);
+        roundtrip(rep, ctx.seed, 0, &b);
+        let mut raw = vec![0u8];
+        raw.extend_from_slice(&b);
+        handpacked(rep, ctx.seed, "raw-large", &raw, Some(&b));
     }
     // bombs
     let big = vec![0u8; 3 * LIMIT];
